@@ -27,14 +27,14 @@ func VerifC12ConnOf(w http.ResponseWriter) VerifC12Conn {
 }
 
 type VerifC12Stream struct {
-	ID          uint32
-	State       int
-	Out         int32 // outflow.n
-	InAvail     int32 // inflow.avail
-	InUnsent    int32 // inflow.unsent
-	BodyLen     int   // pipe.Len(): buffered (or discarded-but-unreturned) bytes; -1 = no body
-	ResetQueued bool
-	QueuedWrites int  // frames waiting in this stream's write queue (round-robin scheduler only, else -1)
+	ID           uint32
+	State        int
+	Out          int32 // outflow.n
+	InAvail      int32 // inflow.avail
+	InUnsent     int32 // inflow.unsent
+	BodyLen      int   // pipe.Len(): buffered (or discarded-but-unreturned) bytes; -1 = no body
+	ResetQueued  bool
+	QueuedWrites int // frames waiting in this stream's write queue (round-robin scheduler only, else -1)
 }
 
 type VerifC12Flow struct {
